@@ -553,6 +553,55 @@ Proof.
   apply N.ltb_lt in Hlt. rewrite Hlt, Hc, N.eqb_refl, Ht, bytes_eqb_refl. reflexivity.
 Qed.
 
+(* instances: a send is fed to the instance running when it is appended, and to no other *)
+Theorem instance_input_cons : forall g a b f c s,
+  instance_input g a b ((f, c) :: s)
+  = (if (sf_id f <? b) && ((a <? sf_id f) && (sf_ctx f =? g_ctx g) && bytes_eqb (sf_topic f) (g_name g ++ suffix_send))
+     then [c] else [])
+    ++ instance_input g a b s.
+Proof.
+  intros g a b f c s. unfold instance_input. cbn [filter fst].
+  destruct (sf_id f <? b); cbn [andb].
+  - rewrite duplex_input_cons. reflexivity.
+  - reflexivity.
+Qed.
+
+Theorem instance_fed_while_running : forall g a b f c s,
+  a < sf_id f -> sf_id f < b -> sf_ctx f = g_ctx g -> sf_topic f = g_name g ++ suffix_send ->
+  instance_input g a b ((f, c) :: s) = c :: instance_input g a b s.
+Proof.
+  intros g a b f c s Ha Hb Hc Ht. rewrite instance_input_cons.
+  apply N.ltb_lt in Ha, Hb. rewrite Ha, Hb, Hc, N.eqb_refl, Ht, bytes_eqb_refl. reflexivity.
+Qed.
+
+Theorem instance_not_fed_earlier : forall g a b f c s,
+  sf_id f <= a -> instance_input g a b ((f, c) :: s) = instance_input g a b s.
+Proof.
+  intros g a b f c s Ha. rewrite instance_input_cons.
+  apply N.ltb_ge in Ha. rewrite Ha. cbn [andb]. rewrite andb_false_r. reflexivity.
+Qed.
+
+Theorem instance_not_fed_later : forall g a b f c s,
+  b <= sf_id f -> instance_input g a b ((f, c) :: s) = instance_input g a b s.
+Proof.
+  intros g a b f c s Hb. rewrite instance_input_cons.
+  apply N.ltb_ge in Hb. rewrite Hb. reflexivity.
+Qed.
+
+(* two instances that do not overlap never share an input *)
+Theorem instances_disjoint : forall g a1 b1 a2 b2 f c,
+  b1 <= a2 ->
+  instance_input g a1 b1 [(f, c)] <> [] -> instance_input g a2 b2 [(f, c)] = [].
+Proof.
+  intros g a1 b1 a2 b2 f c Hle H1.
+  rewrite instance_input_cons in H1. rewrite instance_input_cons.
+  destruct (sf_id f <? b1) eqn:Hb1.
+  - apply N.ltb_lt in Hb1.
+    assert (Hge : sf_id f <= a2) by (apply N.le_trans with b1; [apply N.lt_le_incl; exact Hb1 | exact Hle]).
+    apply N.ltb_ge in Hge. rewrite Hge. cbn [andb]. rewrite andb_false_r. reflexivity.
+  - cbn [andb] in H1. exfalso. apply H1. reflexivity.
+Qed.
+
 (* each frame is fed at most once *)
 Theorem duplex_input_length : forall g start stream,
   (length (duplex_input g start stream) <= length stream)%nat.
